@@ -197,3 +197,178 @@ Proof.
   exact (conj (altered_refused_recipient hmac pk_of_sk Hl Hi key iv nonce recs key' pk recs' Hn)
               (altered_refused_payer hmac pk_of_sk Hl Hi key iv nonce enc recs key' pk recs' Hn He)).
 Qed.
+
+(** * Derived-key modes: the key record is bound by comparison of FULL encodings
+
+    When the signing keys are derived (offer: keys from the path nonce or from 16-byte metadata;
+    payer: 48-byte payer metadata), the key record itself (offer [issuer_id], type 22; request
+    [payer_id], type 88) is excluded from the MAC input, so the comparison
+    [signing_pubkey = pk_of_sk (hmac ...)] is the only thing that binds it.  The model compares the
+    whole encodings (33 bytes for a compressed secp256k1 key, parity byte included). *)
+
+Lemma swap_drop_while (p : bytes -> bool) r r' pre post : p r = p r' ->
+  (exists s, drop_while p (pre ++ r :: post) = s ++ r :: post /\ drop_while p (pre ++ r' :: post) = s ++ r' :: post)
+  \/ drop_while p (pre ++ r :: post) = drop_while p (pre ++ r' :: post).
+Proof.
+  intros Hp. induction pre as [|x pre IH]; cbn [app drop_while].
+  - rewrite <- Hp. destruct (p r); [right; reflexivity | left; exists []; split; reflexivity].
+  - destruct (p x); [exact IH | left; exists (x :: pre); split; reflexivity].
+Qed.
+
+Lemma take_while_stop (p : bytes -> bool) r pre post : p r = false ->
+  take_while p (pre ++ r :: post) = take_while p pre.
+Proof.
+  intros Hp. induction pre as [|x pre IH]; cbn [app take_while]; [rewrite Hp; reflexivity|].
+  destruct (p x); [rewrite IH; reflexivity | reflexivity].
+Qed.
+
+Lemma take_while_swap (p : bytes -> bool) r r' pre post : p r = p r' ->
+  (exists s, take_while p (pre ++ r :: post) = s ++ r :: take_while p post /\
+             take_while p (pre ++ r' :: post) = s ++ r' :: take_while p post)
+  \/ take_while p (pre ++ r :: post) = take_while p (pre ++ r' :: post).
+Proof.
+  intros Hp. induction pre as [|x pre IH]; cbn [app take_while].
+  - rewrite <- Hp. destruct (p r); [left; exists []; split; reflexivity | right; reflexivity].
+  - destruct (p x); [|right; reflexivity].
+    destruct IH as [[s [H1 H2]] | He]; [left; exists (x :: s); rewrite H1, H2; split; reflexivity | right; rewrite He; reflexivity].
+Qed.
+
+Lemma filter_swap_out (f : bytes -> bool) r r' s post : f r = false -> f r' = false ->
+  filter f (s ++ r :: post) = filter f (s ++ r' :: post).
+Proof. intros H1 H2. rewrite !filter_app. cbn [filter]. rewrite H1, H2. reflexivity. Qed.
+
+(** Replacing the value of one record whose type is outside [lo,hi) does not change the range. *)
+Lemma tlv_range_swap_outside lo hi r r' pre post :
+  in_range lo hi r = false -> in_range lo hi r' = false ->
+  tlv_range lo hi (pre ++ r :: post) = tlv_range lo hi (pre ++ r' :: post).
+Proof.
+  intros H1 H2. unfold tlv_range.
+  destruct (swap_drop_while (fun x => negb (in_range lo hi x)) r r' pre post) as [[s [E1 E2]] | E];
+    [rewrite H1, H2; reflexivity | | rewrite E; reflexivity].
+  rewrite E1, E2. rewrite !take_while_stop by assumption. reflexivity.
+Qed.
+
+(** ... and inside the range the two results differ at most in that one record. *)
+Lemma tlv_range_swap_inside lo hi r r' pre post : ty_of r = ty_of r' ->
+  (exists s t, tlv_range lo hi (pre ++ r :: post) = s ++ r :: t /\ tlv_range lo hi (pre ++ r' :: post) = s ++ r' :: t)
+  \/ tlv_range lo hi (pre ++ r :: post) = tlv_range lo hi (pre ++ r' :: post).
+Proof.
+  intros Ht. assert (Hin : in_range lo hi r = in_range lo hi r') by (unfold in_range; rewrite Ht; reflexivity).
+  unfold tlv_range.
+  destruct (swap_drop_while (fun x => negb (in_range lo hi x)) r r' pre post) as [[s [E1 E2]] | E];
+    [rewrite Hin; reflexivity | | right; rewrite E; reflexivity].
+  rewrite E1, E2.
+  destruct (take_while_swap (in_range lo hi) r r' s post Hin) as [[s' [F1 F2]] | F];
+    [left; exists s', (take_while (in_range lo hi) post); split; assumption | right; exact F].
+Qed.
+
+(** The records that enter the MAC in the path-derived mode do not depend on the value of the
+    issuer-id record. *)
+Lemma offer_records_ignore_issuer_id r r' pre post : ty_of r = 22 -> ty_of r' = 22 ->
+  offer_records_for_metadata true (pre ++ r :: post) = offer_records_for_metadata true (pre ++ r' :: post).
+Proof.
+  intros H1 H2. unfold offer_records_for_metadata. f_equal.
+  - destruct (tlv_range_swap_inside 1 80 r r' pre post ltac:(congruence)) as [[s [t [E1 E2]]] | E]; [|rewrite E; reflexivity].
+    rewrite E1, E2. apply filter_swap_out; rewrite ?H1, ?H2; reflexivity.
+  - apply tlv_range_swap_outside; unfold in_range; rewrite ?H1, ?H2; reflexivity.
+Qed.
+
+Lemma payer_records_ignore_payer_id r r' pre post : ty_of r = 88 -> ty_of r' = 88 ->
+  payer_records_for_metadata true (pre ++ r :: post) = payer_records_for_metadata true (pre ++ r' :: post).
+Proof.
+  intros H1 H2. unfold payer_records_for_metadata. f_equal; [|f_equal].
+  - apply tlv_range_swap_outside; unfold in_range; rewrite ?H1, ?H2; reflexivity.
+  - destruct (tlv_range_swap_inside 80 160 r r' pre post ltac:(congruence)) as [[s [t [E1 E2]]] | E]; [|rewrite E; reflexivity].
+    rewrite E1, E2. apply filter_swap_out; rewrite ?H1, ?H2; reflexivity.
+  - apply tlv_range_swap_outside; unfold in_range; rewrite ?H1, ?H2; reflexivity.
+Qed.
+
+Section DerivedKeyBinding.
+  Variable hmac : bytes -> bytes -> bytes.
+  Variable pk_of_sk : bytes -> bytes.
+
+  (** acceptance in the path-derived mode: the issuer-id record IS the full encoding of the derived key *)
+  Lemma derived_key_binds_offer_record key nonce rs : List.length nonce = 16%nat ->
+    offer_verify_using_recipient_data hmac pk_of_sk key nonce rs <> VErr ->
+    find_record 22 rs =
+      Some (pk_of_sk (hmac key ((IV_OFFER_WITHOUT_METADATA ++ firstn 16 nonce
+                                   ++ List.concat (offer_records_for_metadata true rs)
+                                   ++ DERIVED_METADATA_AND_KEYS_HMAC_INPUT)
+                                  ++ WITHOUT_ENCRYPTED_PAYMENT_ID_HMAC_INPUT))).
+  Proof.
+    intros Hn Hv. unfold offer_verify_using_recipient_data in Hv.
+    destruct (find_record 22 rs) as [id|]; [|congruence].
+    apply recipient_metadata_bound in Hv. destruct Hv as [[Hl _] | [_ Hp]]; [rewrite Hn in Hl; discriminate Hl|].
+    rewrite Hp. reflexivity.
+  Qed.
+
+  (** same for 16-byte offer metadata ([verify_using_metadata], keys derived from the metadata) *)
+  Lemma derived_key_binds_offer_record_md key rs md : find_record 4 rs = Some md -> List.length md = 16%nat ->
+    offer_verify_using_metadata hmac pk_of_sk key rs <> VErr ->
+    find_record 22 rs =
+      Some (pk_of_sk (hmac key ((IV_OFFER_WITH_METADATA ++ firstn 16 md
+                                   ++ List.concat (offer_records_for_metadata true rs)
+                                   ++ DERIVED_METADATA_AND_KEYS_HMAC_INPUT)
+                                  ++ WITHOUT_ENCRYPTED_PAYMENT_ID_HMAC_INPUT))).
+  Proof.
+    intros Hm Hl Hv. unfold offer_verify_using_metadata in Hv. rewrite Hm in Hv.
+    destruct (find_record 22 rs) as [id|]; [|congruence].
+    unfold NONCE_LEN in Hv. rewrite Hl in Hv. cbn [Nat.eqb] in Hv.
+    apply recipient_metadata_bound in Hv. destruct Hv as [[Hl' _] | [_ Hp]]; [rewrite Hl in Hl'; discriminate Hl'|].
+    rewrite Hp. reflexivity.
+  Qed.
+
+  (** payer side: 48-byte payer metadata (encrypted payment id ‖ nonce), payer keys derived *)
+  Lemma derived_key_binds_payer_record key iv rs md : find_record 0 rs = Some md -> List.length md = 48%nat ->
+    invoice_verify_using_metadata hmac pk_of_sk key iv rs <> VErr ->
+    find_record 88 rs =
+      Some (pk_of_sk (hmac key ((iv ++ firstn 16 (skipn 32 md)
+                                   ++ List.concat (payer_records_for_metadata true rs)
+                                   ++ DERIVED_METADATA_AND_KEYS_HMAC_INPUT)
+                                  ++ WITH_ENCRYPTED_PAYMENT_ID_HMAC_INPUT ++ firstn 32 md))).
+  Proof.
+    intros Hm Hl Hv. unfold invoice_verify_using_metadata in Hv. rewrite Hm in Hv.
+    destruct (find_record 88 rs) as [id|]; [|congruence].
+    unfold NONCE_LEN, PAYMENT_ID_LEN in Hv. rewrite Hl in Hv. cbn [Nat.eqb Nat.add] in Hv.
+    apply payer_metadata_bound in Hv. cbv zeta in Hv.
+    destruct Hv as [[Hl' _] | [_ Hp]]; [rewrite skipn_length, Hl in Hl'; discriminate Hl'|].
+    rewrite Hp. reflexivity.
+  Qed.
+
+  Lemma find_record_swap t r pre post : ty_of r = t -> (forall x, In x pre -> ty_of x <> t) ->
+    find_record t (pre ++ r :: post) = Some (record_value r).
+  Proof.
+    intros Hr Hpre. induction pre as [|x pre IH]; cbn [app find_record].
+    - rewrite Hr, Z.eqb_refl. reflexivity.
+    - destruct (Z.eqb_spec (ty_of x) t) as [E|E]; [exfalso; exact (Hpre x (or_introl eq_refl) E)|].
+      apply IH. intros y Hy. apply Hpre. right. exact Hy.
+  Qed.
+
+  (** Hence: a stream and a copy of it in which only the VALUE of the issuer-id record differs
+      (a flipped parity byte, or any other bit) cannot both be accepted. *)
+  Lemma issuer_id_alteration_refused key nonce pre r r' post : List.length nonce = 16%nat ->
+    ty_of r = 22 -> ty_of r' = 22 -> (forall x, In x pre -> ty_of x <> 22) ->
+    offer_verify_using_recipient_data hmac pk_of_sk key nonce (pre ++ r :: post) <> VErr ->
+    offer_verify_using_recipient_data hmac pk_of_sk key nonce (pre ++ r' :: post) <> VErr ->
+    record_value r = record_value r'.
+  Proof.
+    intros Hn H1 H2 Hpre Hv Hv'.
+    apply derived_key_binds_offer_record in Hv; [|exact Hn]. apply derived_key_binds_offer_record in Hv'; [|exact Hn].
+    rewrite (find_record_swap 22 r pre post H1 Hpre) in Hv. rewrite (find_record_swap 22 r' pre post H2 Hpre) in Hv'.
+    rewrite (offer_records_ignore_issuer_id r r' pre post H1 H2) in Hv. congruence.
+  Qed.
+
+  Lemma payer_id_alteration_refused key iv pre r r' post md :
+    find_record 0 (pre ++ r :: post) = Some md -> find_record 0 (pre ++ r' :: post) = Some md -> List.length md = 48%nat ->
+    ty_of r = 88 -> ty_of r' = 88 -> (forall x, In x pre -> ty_of x <> 88) ->
+    invoice_verify_using_metadata hmac pk_of_sk key iv (pre ++ r :: post) <> VErr ->
+    invoice_verify_using_metadata hmac pk_of_sk key iv (pre ++ r' :: post) <> VErr ->
+    record_value r = record_value r'.
+  Proof.
+    intros Hm Hm' Hl H1 H2 Hpre Hv Hv'.
+    apply (derived_key_binds_payer_record key iv _ md Hm Hl) in Hv.
+    apply (derived_key_binds_payer_record key iv _ md Hm' Hl) in Hv'.
+    rewrite (find_record_swap 88 r pre post H1 Hpre) in Hv. rewrite (find_record_swap 88 r' pre post H2 Hpre) in Hv'.
+    rewrite (payer_records_ignore_payer_id r r' pre post H1 H2) in Hv. congruence.
+  Qed.
+End DerivedKeyBinding.
